@@ -461,6 +461,25 @@ def nesting_depth(hist):
     return depth[1]
 
 
+def swap_signals(h):
+    """the same program with signals 0 and 1 exchanged (signal 1 goes through the arity-1 overloads)"""
+    def tokmap(t):
+        if t[0] in "cdm":
+            return t[0] + t[1] + str(1 - int(t[2])) + t[3:]
+        return t
+    out = []
+    for line in h:
+        w = line.split()
+        if w[0] == "script":
+            out.append(" ".join(w[:4] + [tokmap(t) for t in w[4:]]))
+        elif w[0] in ("connect", "disconnect", "emit"):
+            w[2] = str(1 - int(w[2]))
+            out.append(" ".join(w))
+        else:
+            out.append(line)
+    return out
+
+
 def nontrivial(h, out):
     """non-trivial = at least 3 slot invocations in total; distinct by the whole observation stream"""
     n = sum(max(0, len(o.split(" | ")[0].split()) - 1) for o in out if o.startswith("log"))
@@ -487,6 +506,10 @@ def histories_for(ctx):
             e = exhaustive(U, size, pool=pool)
             desc.append(f"{U[0]}e x {U[1]}g x {U[2]}l x {U[3]}s{' + re-creation' if len(U) > 4 else ''} size<={size}: {len(e)}")
             ex += e
+            if U[:4] == (1, 1, 2, 2):
+                # once more with the only signal being signal 1 (arity-1 overloads of emit/connect/disconnect)
+                ex += [swap_signals(h) for h in e]
+                desc.append(f"the same over signal 1: {len(e)}")
     nrand = 5000 if quick else 100000
     rnd = [gen_program(rng, rng.choice([6, 10, 16, 24, 40])) for _ in range(nrand)]
     depths = {}
